@@ -299,7 +299,22 @@ def check_post_order(chk, m, L, R, CUR, PAR):
                        "returning the root clears iter->curr (the iterator must not look at the root again once the caller may have freed "
                        "it)%s" % ("" if root_eq else "; this path returns a node without comparing it with iter->curr"), p.ret_inst.loc, fn.name)
             par = [e for e in p.events if e.kind == "store" and ptr_parts(e.ptr) == (("arg", 0), PAR, ())]
-            chk.ob("M3.parent-recorded", sid, bool(par), "the node's parent is recorded in iter->parent for bintree_free", p.ret_inst.loc, fn.name)
+            note = ""
+            if not par:
+                # the parent may be kept in iter->parent while descending instead of in a local: then every call must start by
+                # resetting it (the root's parent is NULL) and every descent must store the node being left
+                entries = [q for s_, q in ss if s_ == fn.entry.name]
+                reset = bool(entries) and all(any(e.kind == "store" and ptr_parts(e.ptr) == (("arg", 0), PAR, ()) and e.val == ("null",)
+                                                  for e in q.events) or q.end == "ret" and strip_casts(q.ret or ("null",)) == ("null",)
+                                              for q in entries)
+                descents = [q for s_, q in ss if q.end.startswith("cut:") and s_ != fn.entry.name]
+                desc_ok = bool(descents) and all(any(e.kind == "store" and ptr_parts(e.ptr) == (("arg", 0), PAR, ()) for e in q.events)
+                                                 for q in descents if any(k != v_ for k, v_ in ((k, strip_casts(v_)) for k, v_ in (getattr(q, "carried", None) or {}).items())
+                                                                          if v_[0] == "ld" or (v_[0] == "cast")))
+                if reset and desc_ok:
+                    par = [True]
+                    note = " (kept in iter->parent during the descent: reset to NULL at the start of every call, set at every step down)"
+            chk.ob("M3.parent-recorded", sid, bool(par), "the node's parent is recorded in iter->parent for bintree_free" + note, p.ret_inst.loc, fn.name)
     chk.expect("M2", "returning segments of post_order_iterator", n_ret, 1)
     chk.expect("M2", "masked navigation reads", n_nav, 1)
 
